@@ -7,7 +7,7 @@ META = {
                   "bintree_iterate_complete", "in_order_iterator", "pre_order_iterator", "post_order_iterator", "list_left_iterator", "list_right_iterator",
                   "bintree_free", "bintree_free_left", "bintree_free_right", "bintree_traverse_{in,pre,post}_order, bintree_traverse_list (as order oracle)"],
     "units": ["librfn/bintree.c", "include/librfn/bintree.h"],
-    "bounds": {"quick": "every binary tree shape with 1..4 nodes (symbolic child indices) for the three iterators; 1..3 nodes for abandoned-then-completed iteration and "
+    "bounds": {"quick": "every binary tree shape with 1..4 nodes (symbolic child indices) for the three iterators; 1..3 nodes for abandoned-then-completed iteration, 1..4 nodes for "
                         "bintree_free / free_left / free_right (heap nodes, free() as deallocator); list iterator on left- and right-leaning spines "
                         "of up to 2 list nodes + 3 elements; the empty tree",
                "thorough": "shapes with 1..5 nodes for in-order / pre-order, 1..4 for post-order, completion and free; spines as in the quick tier (3 list nodes + 4 elements exceed 14 GB)"},
@@ -23,8 +23,8 @@ def queries(tier, kf):
     cfg = [("inorder", "h_inorder", 4 if q else 5, {}), ("preorder", "h_preorder", 4 if q else 5, {}), ("postorder", "h_postorder", 4 if q else 4, {}),
            ("complete-in", "h_complete", 3 if q else 4, {"DIR": 0}), ("complete-pre", "h_complete", 3 if q else 4, {"DIR": 1}),
            ("complete-post", "h_complete", 3 if q else 4, {"DIR": 2}),
-           ("list", "h_list", 5, {}), ("free", "h_free", 3 if q else 4, {}),
-           ("free-lr", "h_free_lr", 3 if q else 4, {}), ("empty", "h_empty", 2, {})]
+           ("list", "h_list", 5, {}), ("free", "h_free", 4, {}),
+           ("free-lr", "h_free_lr", 4, {}), ("empty", "h_empty", 2, {})]
     qs = []
     for name, entry, n, dx in cfg:
         qs.append(Query("c11-%s-n%d" % (name, n), "c11.c", entry, units=U, defines=dict({"NMAX": n}, **dx), unwind=n + 3, timeout=3000, mem_gb=14))
